@@ -195,6 +195,8 @@ class CaseTag(Tag):
         stream.expect_tag("endcase")
         end_block_tag = stream.current()
         assert isinstance(end_block_tag, TagToken)
+        # Without a `when` or `else` block, no block has been parsed up to this tag.
+        stream.trim_carry = end_block_tag.wc[-1]
 
         return self.node_class(
             token,
